@@ -29,7 +29,7 @@ import vlib
 
 THEOREMS = ["C03_symbol_map_total_partial", "C03_unguarded_range_query_panics", "C03_self_parent_diverges_v0",
             "C03_diamond_exponential_v0", "C03_nonvacuous",
-            "C03_panic_sites_inventoried"]
+            "C03_panic_sites_inventoried", "C03_indexer_ids_valid_core", "C03_symbol_map_total_core"]
 TRUSTED = [
     "Coq 8.16.1 kernel; vm_compute only in the closed Examples / witnesses",
     "PARTIAL: proved for the symbol-map layer at op level (symbol_map.rs, symbol_map/record.rs recursion, goto_definition.rs, references.rs, "
